@@ -29,10 +29,11 @@ type urlCase struct {
 // nameCase: naming operations and look-ups.
 type nameCase struct {
 	Routes  []string    `json:"routes"`
-	Naming  [][2]string `json:"naming"`                    // (route index as text | "combo:<idx>", name) in order
-	Lookups []string    `json:"lookups"`                   // names to build
-	Env     string      `json:"env,omitempty"`             // process environment during the look-ups (serial cases only): unknown names panic in every environment
-	ViaCtx  bool        `json:"through_context,omitempty"` // look-ups are made by a handler through Context.URLPath while a request is served
+	Naming  [][2]string `json:"naming"`                             // (route index as text | "combo:<idx>", name) in order
+	Lookups []string    `json:"lookups"`                            // names to build
+	Env     string      `json:"env,omitempty"`                      // process environment during the look-ups (serial cases only): unknown names panic in every environment
+	ViaCtx  bool        `json:"through_context,omitempty"`          // look-ups are made by a handler through Context.URLPath while a request is served
+	ViaNF   bool        `json:"from_the_not_found_chain,omitempty"` // ... by a custom NotFound handler while an unrouted request is served (a "did you mean" page builds links the same way)
 }
 
 // invCase: inverse direction – dispatch a request to a named route and rebuild its path.
@@ -373,6 +374,7 @@ func genNameCase(rng *rand.Rand) *nameCase {
 	}
 	for k := 1 + rng.Intn(3); k > 0; k-- {
 		c.ViaCtx = rng.Intn(3) == 0
+		c.ViaNF = c.ViaCtx && rng.Intn(2) == 0
 		c.Lookups = append(c.Lookups, []string{"n1", "n2", "zz", "", "N1", "home", "HOME", "Home", "\u212aelvin", "kelvin", "Kelvin", "home ", " home", "hom", "homee", "users.show", "users_show", "USERS.SHOW", "n1\x00",
 			// things that identify a route in some other way are not names: its text, its path, its method and text, its index
 			"/a", "/e", "/b/{x}", "/c/?d", "/c", "/combo0", "a", "e", "GET /a", "GET:/a", "0", "1", "/__lookup"}[rng.Intn(32)])
@@ -435,6 +437,12 @@ func judgeNames(w *core.W, c *nameCase) {
 		f.Get("/__lookup", func(ctx flamego.Context) { got = ctx.URLPath(cur, "x", "V", "withOptional", "true") })
 		w.Count("name-lookups-through-context")
 	}
+	lookupPath := "/__lookup"
+	if c.ViaNF {
+		f.NotFound(func(ctx flamego.Context) { got = ctx.URLPath(cur, "x", "V", "withOptional", "true") })
+		lookupPath = "/no/such/route"
+		w.Count("name-lookups-from-the-not-found-chain")
+	}
 	if c.Env != "" {
 		prev := flamego.Env()
 		flamego.SetEnv(flamego.EnvType(c.Env))
@@ -449,7 +457,7 @@ func judgeNames(w *core.W, c *nameCase) {
 			defer func() { pan = recover() }()
 			if c.ViaCtx {
 				cur = n
-				f.ServeHTTP(httptest.NewRecorder(), &http.Request{Method: "GET", URL: &url.URL{Path: "/__lookup"}, Header: http.Header{}})
+				f.ServeHTTP(httptest.NewRecorder(), &http.Request{Method: "GET", URL: &url.URL{Path: lookupPath}, Header: http.Header{}})
 				return
 			}
 			got = f.URLPath(n, "x", "V", "withOptional", "true")
@@ -596,7 +604,7 @@ func runC12(r *core.Run) {
 		judgeInverse(w, c)
 	})
 	r.Gate("distinct_nontrivial", r.NonTrivialCount(), 5000)
-	for _, k := range []string{"nt:value-looks-like-another-bind", "nt:bind-unsupplied", "nt:multi-parameter-list", "nt:optional-included", "nt:optional-excluded", "entry:router", "entry:context", "entry:leaf", "naming-refused", "unknown-name-refused", "inverse-checked", "keyword-looking-bind-name", "earlier-build-with-glued-arguments"} {
+	for _, k := range []string{"nt:value-looks-like-another-bind", "nt:bind-unsupplied", "nt:multi-parameter-list", "nt:optional-included", "nt:optional-excluded", "entry:router", "entry:context", "entry:leaf", "naming-refused", "unknown-name-refused", "name-lookups-from-the-not-found-chain", "inverse-checked", "keyword-looking-bind-name", "earlier-build-with-glued-arguments"} {
 		r.GateCounter(k, 100)
 	}
 }
